@@ -1,0 +1,11 @@
+//go:build verif
+
+package config
+
+// VerifExpandEnvVars exposes expandEnvVars (the environment variable
+// expansion applied to configuration text by Parse) to the verification
+// harness.
+func VerifExpandEnvVars(s string) string { return expandEnvVars(s) }
+
+// VerifEnvVarRegexSource returns the source text of the expansion regex.
+func VerifEnvVarRegexSource() string { return envVarRegex.String() }
